@@ -3,6 +3,7 @@ import OnlVerif.Lemmas.TcpSender
 import OnlVerif.Lemmas.TcpLoop
 import OnlVerif.Lemmas.TcpLiveQuiet
 import OnlVerif.Lemmas.TcpLiveRun
+import OnlVerif.Lemmas.TcpLiveTRun
 /-!
 # C16 — TCP acknowledgements are cumulative and correct; all data gets through
 
@@ -13,12 +14,13 @@ import OnlVerif.Lemmas.TcpLiveRun
   raises; on a loss-free, timely path nothing is sent twice; partial progress lemmas.
 * **Closed loop** (`OnlVerif/Tcp/Loop.lean`, `LoopLive.lean`: sender ∥ lossy FIFO data path ∥ sink ∥ lossy FIFO ACK
   path) for a finite flow: the run never ends early (`quiescent_implies_complete`), never gets stuck (`never_stuck`),
-  no reachable state is a dead end (`can_always_complete`), and every fair run with finitely many losses terminates
-  with everything delivered and acknowledged (`terminates_under_loss_budget`).
+  no reachable state is a dead end (`can_always_complete`), and every run with finitely many losses terminates with
+  everything delivered and acknowledged - on paths that deliver at once (`terminates_under_loss_budget`) and on paths
+  with arbitrary finite per-packet delays, where timers expire while packets are in flight
+  (`terminates_over_delaying_paths`).
 
-What is still open in closed-loop liveness (termination when timers may expire while packets are in flight) is stated
-in the comment before the examples.  The correspondence check explores drop patterns against the real code as a
-failing-input search, not as a proof.
+What these theorems do not give is listed in the comment before the examples.  The correspondence check explores drop
+patterns against the real code as a failing-input search, not as a proof.
 -/
 
 namespace C16
@@ -329,8 +331,49 @@ theorem fair_run_facts (n : Nat) (l : Loop ℚ) (h : LInv n l) :
   ⟨fun _ _ hr => breach_lreach hr, fun _ => ⟨fun hq => quiescent_stuck hq, fun hs => stuck_quiescent h hs⟩,
    fun _ _ hf hs => fair_decreases h hf hs⟩
 
+/-! ### liveness: termination over paths with delay -/
+
+/-- **Over any pair of order-preserving paths that delay every packet by a finite amount and drop finitely many, the
+transfer completes.**  `TLoop` attaches to each packet in flight the instant by which its path delivers it - chosen
+arbitrarily, per packet, when it enters the path (not in the past).  A step (`TLoop.TStep`) is any enabled burst of the
+sender, a delivery or an ACK arrival (possibly before that instant), or the advance of the clock from one event instant
+to the next (a timer wake-up or a delivery instant), never beyond the delivery instant of a packet in flight nor
+beyond a due timer - so **retransmission timers may expire while packets and ACKs are still in flight** (round-trip
+times above the RTO, spurious retransmissions, duplicate ACKs and fast retransmits included); `TLoop.TBStep` adds the
+loss of any packet in flight against a budget `k`.  Under the hypotheses of `quiescent_implies_complete`, for every `k`:
+
+1. there is **no infinite run** from the initial state;
+2. every reachable state from which **no step is possible** is quiescent and has `sink = [(0, n)]`, `last_ack = n`.
+
+The measure (`TcpLive.tmu`, lexicographic): what the sink's prefix, `last_ack` and `next_seq` still have to go; whether
+an ACK beyond `last_ack`, or else a copy of the segment at `last_ack`, is already in flight; the number of timer
+expiries that can still precede the delivery instant of that packet (or, if there is none, the expiry of the timer of
+`last_ack`) - finite because every expiry doubles the RTO; the weight of the packets in flight; the events not yet
+due. -/
+theorem terminates_over_delaying_paths (kind : CCKind) (cc : CCState ℚ) (rtt : ℚ) (mss n : Nat) (now : ℚ)
+    (hcc : CCInv kind cc) (hrtt : 0 < rtt) (hn : 0 < n) (hm : 0 < mss) (hd : mss ∣ n) (hc : (mss : ℚ) ≤ cc.mss)
+    (k : Nat) :
+    (¬ ∃ f : Nat → Nat × TLoop ℚ, f 0 = (k, TLoop.init (Sender.init kind cc rtt mss (some n) now)) ∧
+        ∀ i, TLoop.TBStep (f i) (f (i + 1))) ∧
+    (∀ k' L, Relation.ReflTransGen TLoop.TBStep (k, TLoop.init (Sender.init kind cc rtt mss (some n) now)) (k', L) →
+        (∀ y, ¬ TLoop.TBStep (k', L) y) → L.l.Quiescent ∧ L.l.sink = [(0, n)] ∧ L.l.snd.last_ack = n) := by
+  have h0 := TInv_init (fresh_init kind cc rtt mss n now hcc hrtt hn hm hd hc)
+  refine ⟨no_infinite_of_acc (tbstep_acc k _ h0), fun k' L hr hstuck => ?_⟩
+  have h : TInv n L := tbreach_TInv hr h0
+  have hq := tstuck_quiescent h hstuck
+  exact ⟨hq, quiescent_complete h.inv hq⟩
+
+/-- runs over timed paths are runs of the closed loop (all safety results apply), they can continue exactly while the
+state is not quiescent, and every loss-free step decreases `TcpLive.tmu` -/
+theorem timed_run_facts (n : Nat) (L : TLoop ℚ) (h : TInv n L) :
+    (∀ k y, Relation.ReflTransGen TLoop.TBStep (k, L) y → LReach L.l y.2.l) ∧
+    (∀ k, L.l.Quiescent ↔ ∀ y, ¬ TLoop.TBStep (k, L) y) ∧
+    (∀ L', TLoop.TStep L L' → Lt5 (tmu n L') (tmu n L)) :=
+  ⟨fun _ _ hr => tbreach_lreach hr, fun _ => ⟨fun hq => tquiescent_stuck h hq, fun hs => tstuck_quiescent h hs⟩,
+   fun _ hs => tstep_decreases h hs⟩
+
 /-
-**Closed-loop liveness: what is proved and what is not.**  Full statement of the property clause:
+**Closed-loop liveness: what is proved and what is left.**  Full statement of the property clause:
 
   for every flow size `size = n · MSS`, `n ≥ 1`, every pair of order-preserving paths with arbitrary non-negative
   per-packet delays and finite sets `D`, `A` of dropped transmission indices (data, ACK direction), every
@@ -338,7 +381,7 @@ theorem fair_run_facts (n : Nat) (l : Loop ℚ) (h : LInv n l) :
   the closed system  sender LTS ∥ data path ∥ `TcpSink.put` ∥ ACK path  reaches, after finitely many steps, a state
   with `sink.recv_buffer = [(0, size)]` and `sender.last_ack = size`, and no step on the way is an error.
 
-Proved above, for the model `OnlVerif/Tcp/Loop.lean` (+ `LoopLive.lean`), all for `cc.mss ≥ 512` (see below):
+Proved above for the models `OnlVerif/Tcp/Loop.lean` + `LoopLive.lean`, all for `cc.mss ≥ 512` (see below):
 
 * no error on the way: `sender_never_raises`, `acks_in_flight_are_backed_partial`;
 * safety half, for *arbitrary* delays (any interleaving of clock ticks with deliveries) and *arbitrary* losses (any
@@ -347,20 +390,19 @@ Proved above, for the model `OnlVerif/Tcp/Loop.lean` (+ `LoopLive.lean`), all fo
   is enabled;
 * `can_always_complete`: from every state reachable under arbitrary delays and losses, a finite loss-free continuation
   reaches the complete state - no loss pattern can wedge the protocol;
-* `terminates_under_loss_budget`: with at most `k` losses (any `k`, any packets, at any moments) and *every* order of
-  the enabled bursts, every run is finite and ends complete - for runs in which the clock advances only when no packet
-  is in flight (`Loop.Fair`).
+* `terminates_under_loss_budget`: with at most `k` losses (any `k`, any packets, at any moments), every order of the
+  enabled bursts, on paths that deliver within the instant, every run is finite and ends complete;
+* `terminates_over_delaying_paths`: the same over paths that delay each packet by an arbitrary finite amount, where
+  timers expire while packets are in flight - the statement above, in the model.  "Finite sets of dropped transmission
+  indices" is the loss budget: a run drops at most `|D| + |A|` packets.
 
-Not proved: termination (as opposed to "no dead end" + "no premature end") for paths whose delay is *positive*, i.e.
-for runs in which a retransmission timer may expire while packets are still in flight (round-trip time ≥ RTO: spurious
-timeouts).  `Loop.Fair` lets the clock advance only when both paths are empty: the paths of
-`terminates_under_loss_budget` lose packets but deliver within the instant.  The missing piece is the timed channel
-(each packet in flight carries its delivery instant; the clock may advance up to the earliest of these and of the
-timer wake-ups) and the extension of the measure `TcpLive.mu` by the delivery instant of the packet that carries the
-progress; the invariant `LInv`, `fair_progress` and the first component of `mu` do not depend on the restriction.
-The 7 000+ closed loops of the thorough tier (all drop subsets of size ≤ 2 for flows of ≤ 8 segments, random larger
-ones, with positive path delays and initial RTOs on both sides of the round-trip time) all terminate complete, which
-is evidence, not proof.
+What this does not give: (1) the step from the models to the code is the replay correspondence (sender and sink
+separately, closed loops by trace comparison), not a proof; (2) exact rational arithmetic: in floating point a timer
+armed for less than the resolution of the clock never fires (`TimerRec.live = false`), which the theorems exclude;
+(3) in `TLoop` a path may deliver *before* the instant it announced and the clock moves from event to event - a
+superset of the runs of a path with fixed per-packet delays, so nothing is lost, but the bound on the *time* of
+completion (as opposed to the number of steps) is not stated; (4) flows with `start_time`, `finish_time`,
+`arrival_dist`, `size_dist` or a size that is not a multiple of the MSS are outside the model (as for the rest of C16).
 
 **A finding**: `mss ≤ cc.mss` is needed.  `TCPPacketGenerator.mss` is the constant 512 while the congestion-control
 object has its own `mss` parameter; with `TCPReno(mss=100, cwnd=512)`, a flow of 1024 bytes and the first transmission
@@ -450,5 +492,30 @@ example : ((Loop.init (Sender.init .reno ({ (TCPCubic.defaults : CCState ℚ) wi
       1 512 (some 1024) 0)).runB 1 [.own (.wake 4), .own (.tick 2)]).isSome = false ∧
   ((Loop.init (Sender.init .reno ({ (TCPCubic.defaults : CCState ℚ) with mss := 512, cwnd := 512, ssthresh := 65535 })
       1 512 (some 1024) 0)).run [.own (.wake 4), .own (.tick 2)]).isSome = true := by decide +kernel
+
+/-- a run over paths with delay in which the timer of segment 0 expires (`t = 2`) **while the segment is still in
+flight** (its path delivers it at `t = 3`): the segment is retransmitted, the original and then the duplicate are
+delivered, the duplicate is answered by a duplicate ACK, the second segment follows; the run (17 steps, no loss) is a
+`TBStep` run (`TLoop.runT` checks every side condition; `TcpLive.runT_sound`) and ends quiescent and complete -/
+example : ((TLoop.init (Sender.init .reno ({ (TCPCubic.defaults : CCState ℚ) with mss := 512, cwnd := 512, ssthresh := 65535 })
+      1 512 (some 1024) 0)).runT 0
+    [.burst (.wake 4) [3], .tick 2, .burst (.fire 0) [5], .tick 3, .deliver (7/2), .tick (7/2), .ackArrive [],
+     .burst .handoff [], .burst (.wake 4) [13/2], .tick 5, .deliver (11/2), .tick (11/2), .ackArrive [],
+     .tick (13/2), .deliver 7, .tick 7, .ackArrive []]).map
+      (fun y => (y.1, decide y.2.l.Quiescent, decide (y.2.l.Complete 1024), y.2.dT.length + y.2.aT.length))
+    = some (0, true, true, 0) := by decide +kernel
+
+/-- the clock cannot pass the delivery instant of a packet in flight (`tick 4` with a packet due at 3), it cannot stop
+between events (`tick 1`), and without budget nothing is lost -/
+example :
+  ((TLoop.init (Sender.init .reno ({ (TCPCubic.defaults : CCState ℚ) with mss := 512, cwnd := 512, ssthresh := 65535 })
+      1 512 (some 1024) 0)).runT 0 [.burst (.wake 4) [3], .tick 2, .burst (.fire 0) [5], .tick 4]).isSome = false ∧
+  ((TLoop.init (Sender.init .reno ({ (TCPCubic.defaults : CCState ℚ) with mss := 512, cwnd := 512, ssthresh := 65535 })
+      1 512 (some 1024) 0)).runT 0 [.burst (.wake 4) [3], .tick 1]).isSome = false ∧
+  ((TLoop.init (Sender.init .reno ({ (TCPCubic.defaults : CCState ℚ) with mss := 512, cwnd := 512, ssthresh := 65535 })
+      1 512 (some 1024) 0)).runT 0 [.burst (.wake 4) [3], .dropData 0]).isSome = false ∧
+  ((TLoop.init (Sender.init .reno ({ (TCPCubic.defaults : CCState ℚ) with mss := 512, cwnd := 512, ssthresh := 65535 })
+      1 512 (some 1024) 0)).runT 1 [.burst (.wake 4) [3], .dropData 0, .tick 2, .burst (.fire 0) [5]]).isSome = true := by
+  decide +kernel
 
 end C16
